@@ -164,150 +164,7 @@ func c29(c *core.Ctx) {
 	// lock order, rlock, blockheld
 	{
 		ls := locks(c)
-		type edge struct{ a, b string }
-		edges := map[edge]ssa.Instruction{}
-		// transitive acquisitions per function (may-acquire, over the call graph)
-		cg := c.P.CallGraph()
-		acq := map[*ssa.Function]map[string]bool{}
-		sfns := libFns(c, "server")
-		for _, f := range sfns {
-			acq[f] = map[string]bool{}
-			for _, call := range ssax.Calls(f) {
-				if _, isDefer := call.(*ssa.Defer); isDefer {
-					continue
-				}
-				if op, ok := lockset.LockOp(call); ok && op.Acquire && op.Mutex != "" {
-					k := op.Mutex
-					if op.Read {
-						k += ":r"
-					}
-					acq[f][k] = true
-				}
-			}
-		}
-		for changed := true; changed; {
-			changed = false
-			for _, f := range sfns {
-				n := cg.Nodes[f]
-				if n == nil {
-					continue
-				}
-				for _, e := range n.Out {
-					if _, isGo := e.Site.(*ssa.Go); isGo {
-						continue
-					}
-					for k := range acq[e.Callee.Func] {
-						if !acq[f][k] {
-							acq[f][k] = true
-							changed = true
-						}
-					}
-				}
-			}
-		}
-		addEdge := func(f *ssa.Function, at ssa.Instruction, held lockset.Set, k string) {
-			m := strings.TrimSuffix(k, ":r")
-			read := strings.HasSuffix(k, ":r")
-			for h := range held {
-				hm := strings.TrimSuffix(h, ":r")
-				if hm == m {
-					if ls.Entry(f)[h] {
-						continue // inherited from the caller: reported at the function that took the lock
-					}
-					if strings.HasSuffix(h, ":r") && read {
-						c.Ob("C29.rlock", fname(f)+"·RLock of "+m+" while already read-locked", pos(c, at), false, "recursive read lock: a writer (e.g. AddNode) queued between the two RLocks blocks the second one for ever and with it the dispatcher")
-					} else {
-						c.Ob("C29.rlock", fname(f)+"·re-lock of "+m, pos(c, at), false, "the mutex is acquired while already held on this path: self-deadlock")
-					}
-					continue
-				}
-				e := edge{hm, m}
-				if _, ok := edges[e]; !ok {
-					edges[e] = at
-				}
-			}
-		}
-		for _, f := range sfns {
-			for _, call := range ssax.Calls(f) {
-				switch call.(type) {
-				case *ssa.Defer, *ssa.Go:
-					continue
-				}
-				held := ls.HeldAt(call)
-				if len(held) == 0 {
-					continue
-				}
-				if op, ok := lockset.LockOp(call); ok {
-					if op.Acquire && op.Mutex != "" {
-						k := op.Mutex
-						if op.Read {
-							k += ":r"
-						}
-						addEdge(f, call, held, k)
-					}
-					continue
-				}
-				if n := cg.Nodes[f]; n != nil {
-					for _, e := range n.Out {
-						if e.Site != call {
-							continue
-						}
-						for k := range acq[e.Callee.Func] {
-							addEdge(f, call, held, k)
-						}
-					}
-				}
-			}
-		}
-		// cycles (pairs and longer) by DFS
-		adj := map[string][]string{}
-		for e := range edges {
-			adj[e.a] = append(adj[e.a], e.b)
-		}
-		reported := map[string]bool{}
-		var keys []string
-		for e := range edges {
-			keys = append(keys, e.a+"→"+e.b)
-		}
-		sort.Strings(keys)
-		for _, k := range keys {
-			parts := strings.Split(k, "→")
-			a, b := parts[0], parts[1]
-			// is there a path b ->* a ?
-			seen := map[string]bool{}
-			var dfs func(x string) bool
-			dfs = func(x string) bool {
-				if x == a {
-					return true
-				}
-				if seen[x] {
-					return false
-				}
-				seen[x] = true
-				for _, y := range adj[x] {
-					if dfs(y) {
-						return true
-					}
-				}
-				return false
-			}
-			cyc := dfs(b)
-			if cyc {
-				pair := []string{a, b}
-				sort.Strings(pair)
-				id := strings.Join(pair, "↔")
-				if reported[id] {
-					continue
-				}
-				reported[id] = true
-				c.Ob("C29.lockorder", "server·lock order "+id, pos(c, edges[edge{a, b}]), false, "both orders occur ("+a+" then "+b+" here; the reverse elsewhere): two goroutines can deadlock, and with them the single dispatcher")
-			} else {
-				c.Ob("C29.lockorder", "server·lock order "+a+"→"+b, pos(c, edges[edge{a, b}]), true, "no reverse order reachable")
-			}
-		}
-		if len(c.Obs) > 0 && !hasRule(c, "C29.rlock") {
-			c.Ob("C29.rlock", "server·no recursive read lock", "-", true, "no RLock acquired while the same RWMutex is read-locked")
-		}
+		lockOrderRules(c, "C29.lockorder", "C29.rlock", "server", []string{"server"}, "two goroutines can deadlock, and with them the single dispatcher", "a writer (e.g. AddNode) queued between the two RLocks blocks the second one for ever and with it the dispatcher")
 		// blockheld
 		for _, f := range libFns(c, "server") {
 			for _, b := range f.Blocks {
@@ -452,4 +309,175 @@ func invariantCond(l *ssax.Loop, cond ssa.Value) bool {
 		}
 	}
 	return inv(cond, 0)
+}
+
+// lockOrderRules builds the lock-order graph of the given packages (edge A→B
+// when B is acquired — directly or in a callee — while A is held) and reports
+// cycles and recursive acquisitions.
+func lockOrderRules(c *core.Ctx, orderRule, relockRule, scope string, shorts []string, cycleWhy, rlockWhy string) {
+	ls := locks(c)
+	type edge struct{ a, b string }
+	edges := map[edge]ssa.Instruction{}
+	cg := c.P.CallGraph()
+	acq := map[*ssa.Function]map[string]bool{}
+	sfns := libFns(c, shorts...)
+	for _, f := range sfns {
+		acq[f] = map[string]bool{}
+		for _, call := range ssax.Calls(f) {
+			if _, isDefer := call.(*ssa.Defer); isDefer {
+				continue
+			}
+			if op, ok := lockset.LockOp(call); ok && op.Acquire && op.Mutex != "" {
+				k := op.Mutex
+				if op.Read {
+					k += ":r"
+				}
+				acq[f][k] = true
+			}
+		}
+	}
+	for changed := true; changed; {
+		changed = false
+		for _, f := range sfns {
+			n := cg.Nodes[f]
+			if n == nil {
+				continue
+			}
+			for _, e := range n.Out {
+				if _, isGo := e.Site.(*ssa.Go); isGo {
+					continue
+				}
+				for k := range acq[e.Callee.Func] {
+					if !acq[f][k] {
+						acq[f][k] = true
+						changed = true
+					}
+				}
+			}
+		}
+	}
+	nRelock := 0
+	noted := map[string]bool{}
+	addEdge := func(f *ssa.Function, at ssa.Instruction, held lockset.Set, k string) {
+		m := strings.TrimSuffix(k, ":r")
+		read := strings.HasSuffix(k, ":r")
+		for h := range held {
+			hm := strings.TrimSuffix(h, ":r")
+			// mutexes with several live instances per owner: an instance-insensitive identity cannot
+			// tell "the same object twice" from "two objects of one type" (DESIGN §8) — evidence only
+			if why, multi := multiInstanceMutex[m]; multi || multiInstanceMutex[hm] != "" {
+				if why == "" {
+					why = multiInstanceMutex[hm]
+				}
+				if !noted[hm+"→"+m] {
+					noted[hm+"→"+m] = true
+					c.Info(orderRule, scope+"·"+hm+" then "+m+" (not decided)", pos(c, at), "evidence only: "+why)
+				}
+				continue
+			}
+			if hm == m {
+				if ls.Entry(f)[h] {
+					continue // inherited from the caller: reported at the function that took the lock
+				}
+				nRelock++
+				if strings.HasSuffix(h, ":r") && read {
+					c.Ob(relockRule, fname(f)+"·RLock of "+m+" while already read-locked", pos(c, at), false, "recursive read lock: "+rlockWhy)
+				} else {
+					c.Ob(relockRule, fname(f)+"·re-lock of "+m, pos(c, at), false, "the mutex is acquired while already held on this path: self-deadlock")
+				}
+				continue
+			}
+			e := edge{hm, m}
+			if _, ok := edges[e]; !ok {
+				edges[e] = at
+			}
+		}
+	}
+	for _, f := range sfns {
+		for _, call := range ssax.Calls(f) {
+			switch call.(type) {
+			case *ssa.Defer, *ssa.Go:
+				continue
+			}
+			held := ls.HeldAt(call)
+			if len(held) == 0 {
+				continue
+			}
+			if op, ok := lockset.LockOp(call); ok {
+				if op.Acquire && op.Mutex != "" {
+					k := op.Mutex
+					if op.Read {
+						k += ":r"
+					}
+					addEdge(f, call, held, k)
+				}
+				continue
+			}
+			if n := cg.Nodes[f]; n != nil {
+				for _, e := range n.Out {
+					if e.Site != call {
+						continue
+					}
+					for k := range acq[e.Callee.Func] {
+						addEdge(f, call, held, k)
+					}
+				}
+			}
+		}
+	}
+	adj := map[string][]string{}
+	for e := range edges {
+		adj[e.a] = append(adj[e.a], e.b)
+	}
+	reported := map[string]bool{}
+	var keys []string
+	for e := range edges {
+		keys = append(keys, e.a+"→"+e.b)
+	}
+	sort.Strings(keys)
+	for _, k := range keys {
+		parts := strings.Split(k, "→")
+		a, b := parts[0], parts[1]
+		seen := map[string]bool{}
+		var dfs func(x string) bool
+		dfs = func(x string) bool {
+			if x == a {
+				return true
+			}
+			if seen[x] {
+				return false
+			}
+			seen[x] = true
+			for _, y := range adj[x] {
+				if dfs(y) {
+					return true
+				}
+			}
+			return false
+		}
+		if dfs(b) {
+			pair := []string{a, b}
+			sort.Strings(pair)
+			id := strings.Join(pair, "↔")
+			if reported[id] {
+				continue
+			}
+			reported[id] = true
+			c.Ob(orderRule, scope+"·lock order "+id, pos(c, edges[edge{a, b}]), false, "both orders occur ("+a+" then "+b+" here; the reverse elsewhere): "+cycleWhy)
+		} else {
+			c.Ob(orderRule, scope+"·lock order "+a+"→"+b, pos(c, edges[edge{a, b}]), true, "no reverse order reachable")
+		}
+	}
+	if len(keys) == 0 {
+		c.Ob(orderRule, scope+"·no nested lock acquisition", "-", true, "no mutex is acquired while another is held")
+	}
+	if nRelock == 0 {
+		c.Ob(relockRule, scope+"·no recursive lock acquisition", "-", true, "no mutex is (read-)locked again while held")
+	}
+}
+
+// multiInstanceMutex lists mutexes of which several instances are alive per
+// owner and are nested by design; each with the reason confirmed by reading.
+var multiInstanceMutex = map[string]string{
+	"uasc.channelInstance.Mutex": "renew() holds the mutex of the token instance being renewed while open() sends with the new opening instance's mutex: two different objects of one type; the instance-insensitive lockset cannot decide these orders",
 }
